@@ -11,7 +11,7 @@ ANCHOR_FILES = ["aw_core/models.py", "aw_core/schema.py"]
 REQUIRED_COUNTERS = ["events_constructed", "schema_validations", "floor_values_checked"]
 RULE = ("(a) sweep: every microsecond value 0..999999 on base instants/offsets, as aware datetime and as ISO string; "
         "(b) random instants 1970..2100 × UTC offsets in [-14h,+14h] × representations {aware datetime (fixed offset, or an IANA zone with DST rules near a transition, fold 0/1), isoformat(), "
-        "'Z' suffix, space separator, 1/2/3/4/5/6/9-digit fraction, ',' fraction, no fraction, basic format, +HHMM and +HH offsets} × durations {timedelta, int, "
+        "'Z' suffix, space separator, 1/2/3/4/5/6/9-digit fraction, ',' fraction, no fraction, basic format, +HHMM and +HH offsets} × durations (8 % of them negative) {timedelta, int, "
         "float k/1e6} × generated JSON data × ids {None, int, str}; non-trivial = non-zero sub-millisecond part or "
         "non-UTC offset or float duration; signature = (representation, offset sign, µs class, duration kind, id kind)")
 ASSUMPTIONS = ["'1970..2100' is read as the local calendar date: early 1970-01-01 east of UTC (a negative unix time) is in the domain",
@@ -131,6 +131,8 @@ def gen_case(rng, ctx):
     dur = rand_duration(rng)
     if durk == "int":
         dur = dur // 10**6 * 10**6
+    if rng.random() < 0.08:
+        dur = -dur        # a negative duration is a legal Event (clocks get adjusted between heartbeats)
     return dict(kind="one", us=us, off=off, zone=zone, rep="dt" if (zone and rng.random() < 0.7) else rng.choice(REPS), durk=durk, dur=dur,
                 data=rand_data(rng, 3), id=rng.choice([None, None, 0, 7, 2**40, "abc", "17"]))
 
